@@ -122,6 +122,9 @@ def exec_fn(fn, arg_terms, consts=None):
         m = re.match(r"^(?:copy|move) (.+)$", tok)
         if m:
             place = m.group(1).strip()
+            mt = re.match(r"^\((_\d+)\.([01]): (\w+)\)$", place)
+            if mt and mt.group(1) in env and env[mt.group(1)].sort == "tuple":
+                return env[mt.group(1)].term[int(mt.group(2))]
             place = re.sub(r"^\(\(\*(_\d+)\)\.(\d+): \w+\)$", r"\1.\2", place)
             place = re.sub(r"^\((_\d+)\.(\d+): \w+\)$", r"\1.\2", place)
             place = re.sub(r"^\(\*(_\d+)\)$", r"\1", place)
@@ -184,10 +187,10 @@ def exec_fn(fn, arg_terms, consts=None):
             m = re.match(r"^goto -> (bb\d+)$", st)
             if m:
                 return run(m.group(1), env, depth + 1)
-            m = re.match(r"^assert\((!?)(?:move|copy) (_\d+), .*\) -> \[success: (bb\d+), unwind", st)
+            m = re.match(r"^assert\((!?)((?:move|copy) (?:_\d+|\(_\d+\.[01]: \w+\))), .*\) -> \[success: (bb\d+), unwind", st)
             if m:
                 # overflow / shift assertion: must be valid, emitted as a side obligation
-                c = env.get(m.group(2))
+                c = operand(m.group(2), env)
                 if c is None:
                     raise Refuse("assert on unknown")
                 env.setdefault("__asserts", [])
@@ -222,6 +225,20 @@ def exec_fn(fn, arg_terms, consts=None):
             mm = re.match(r"^(\w+)\((.*), (.*)\)$", rhs)
             if mm and mm.group(1) in ("Ge", "Gt", "Le", "Lt", "Eq", "Ne", "Shr", "Shl", "BitAnd", "BitOr", "BitXor", "Add", "Sub", "Mul"):
                 env[dst] = binop(mm.group(1), operand(mm.group(2), env), operand(mm.group(3), env))
+                continue
+            mm = re.match(r"^(Add|Sub|Mul)WithOverflow\((.*), (.*)\)$", rhs)
+            if mm:
+                a, b2 = operand(mm.group(2), env), operand(mm.group(3), env)
+                w = int(a.sort[2:])
+                op = {"Add": "bvadd", "Sub": "bvsub", "Mul": "bvmul"}[mm.group(1)]
+                wide = {"Add": "bvadd", "Sub": "bvsub", "Mul": "bvmul"}[mm.group(1)]
+                val = "(%s %s %s)" % (op, a.term, b2.term)
+                za, zb = "((_ zero_extend %d) %s)" % (w, a.term), "((_ zero_extend %d) %s)" % (w, b2.term)
+                if mm.group(1) == "Sub":
+                    ovf = "(bvult %s %s)" % (a.term, b2.term)
+                else:
+                    ovf = "(not (= ((_ extract %d %d) (%s %s %s)) %s))" % (2 * w - 1, w, wide, za, zb, bv(0, w))
+                env[dst] = Val((Val(val, a.sort), Val(ovf, "bool")), "tuple")
                 continue
             mm = re.match(r"^(.*) as (\w+) \(IntToInt\)$", rhs)
             if mm:
@@ -319,7 +336,8 @@ def native_eval(repo, scratch, exprs):
     shutil.copy(os.path.join(repo, "Cargo.lock"), os.path.join(d, "Cargo.lock"))
     body = "\n".join('    println!("{}", %s);' % e for e in exprs)
     open(os.path.join(d, "src", "main.rs"), "w").write("#![allow(unused_imports)]\nuse tls_parser::*;\nfn main() {\n%s\n}\n" % body)
-    env = dict(os.environ, CARGO_NET_OFFLINE="true", CARGO_TARGET_DIR=os.path.join(scratch, "e2replay-target"))
+    env = dict(os.environ, CARGO_NET_OFFLINE="true", CARGO_TARGET_DIR=os.path.join(scratch, "e2replay-target"),
+               RUSTFLAGS="--cfg tls_parser_verif")
     p = subprocess.run(["cargo", "run", "--offline", "-q"], cwd=d, env=env, stdout=subprocess.PIPE, stderr=subprocess.PIPE, text=True)
     if p.returncode != 0:
         return None, p.stderr[-2000:]
